@@ -46,17 +46,28 @@ def uniqueName (name : Str) (reserved : List Str) : Option Str :=
 def setName (attrs : List Attr) (i : Nat) (n : Str) : List Attr :=
   attrs.modify i (fun a => { a with name := n })
 
-/-- `ClassUtils.rename_attribute_by_preference(a, b)` for the attrs at positions `i`, `j` -/
-def renameByPreference (attrs : List Attr) (i j : Nat) : List Attr :=
+/-- `ClassUtils.rename_attribute_by_preference(a, b)` for the attrs at positions `i`, `j`:
+the position of the attr that is changed and its new name -/
+def preferenceChange (attrs : List Attr) (i j : Nat) : Option (Nat × Str) :=
   match attrs[i]?, attrs[j]? with
   | some a, some b =>
     if a.tag = b.tag && (a.hasNs || b.hasNs) then
       let (k, ch) := if b.hasNs then (j, b) else (i, a)
-      setName attrs k (cleanUri (ch.ns.getD []) ++ ['_'] ++ ch.name)
+      some (k, cleanUri (ch.ns.getD []) ++ ['_'] ++ ch.name)
     else
       let (k, ch) := if b.isAttribute then (j, b) else (i, a)
-      setName attrs k (ch.name ++ ['_'] ++ ch.tag)
-  | _, _ => attrs
+      some (k, ch.name ++ ['_'] ++ ch.tag)
+  | _, _ => none
+
+/-- the two-member branch of `rename_duplicate_attributes`: rename by preference, then
+`change.name = unique_name(change.name, {x.slug for x in attrs if x is not change})` -/
+def renameByPreference (attrs : List Attr) (i j : Nat) : List Attr :=
+  match preferenceChange attrs i j with
+  | some (k, n) =>
+    match uniqueName n ((attrs.eraseIdx k).map Attr.slug) with
+    | some n' => setName attrs k n'
+    | none => setName attrs k n
+  | none => attrs
 
 /-- `ClassUtils.rename_attributes_by_index(attrs, rename)`: `idxs` are the positions
 of `rename[1:]`; the reserved set is recomputed from all attrs before every rename -/
